@@ -60,7 +60,7 @@ class C19(Prop):
     id = 'C19'
     rule = ('Generated: trees from adversarial texts / mutated real code x 9 versions x dump indent in {None,0,1,4,"","\\t","  "} x '
             'pickle protocols 2..HIGHEST x tree state {fresh; used: name index / error listing / PEP 8 listing / leaf navigation run first; diffed: the '
-            'same tree reached by an in-place diff_cache update; unpickled: already through one pickle round trip} x a drawn antichain of nodes/leaves (pairwise disjoint) with replacement strings. Oracle: '
+            'same tree reached by an in-place diff_cache update; unpickled: already through one pickle round trip} x {whole tree, a drawn sub-tree as base node} x a drawn antichain of nodes/leaves (pairwise disjoint) with replacement strings. Oracle: '
             'pickle round trip and eval(dump(indent)) give a tree equal under own comparator (class, type, value, prefix, positions, '
             'token_type, child counts), consistent parents, same get_code and dump; refactor(m, {}) == text; refactor(m, mapping) == '
             'text with each mapped span [offset of first leaf prefix, end of last leaf) replaced (offsets by running sums). '
@@ -77,7 +77,8 @@ class C19(Prop):
             'indent': st.sampled_from(INDENTS), 'protocol': st.integers(2, pickle.HIGHEST_PROTOCOL),
             # where the tree comes from / what was done with it before it is serialised
             'state': st.sampled_from(['fresh', 'fresh', 'used', 'used', 'diffed', 'unpickled']),
-            'targets': st.lists(st.tuples(st.integers(0, 10 ** 6), st.sampled_from(REPLACEMENTS)), max_size=5)})
+            'targets': st.lists(st.tuples(st.integers(0, 10 ** 6), st.sampled_from(REPLACEMENTS)), max_size=5),
+            'base': st.one_of(st.just(0), st.integers(0, 10 ** 6))})
 
     def check(self, case):
         code, v = case['code'], case['version']
@@ -154,6 +155,25 @@ class C19(Prop):
                 if got != exp:
                     fail = ('refactor-splice', 'targets %r: got %s expected %s'
                             % ([(n.type, a, b, rep) for n, a, b, rep in chosen], short(got, 120), short(exp, 120)))
+                if fail is None and case.get('base'):
+                    # the same map applied to a sub-tree: the code of that node (prefix included) with the mapped nodes inside it replaced
+                    bn = N[case['base'] % len(N)]
+                    a0, b0 = off[id(bn)]
+                    if bn in mapping:
+                        exp = mapping[bn]
+                    else:
+                        exp = code[a0:b0]
+                        def inside(n):
+                            while n is not None and n is not bn:
+                                n = n.parent
+                            return n is bn
+                        for n, a, b, rep in sorted(chosen, key=lambda t: -t[1]):
+                            if inside(n):        # (a mapped ancestor of the base, or a node elsewhere, is not visited)
+                                exp = exp[:a - a0] + rep + exp[b - a0:]
+                    got = g.refactor(bn, mapping)
+                    if got != exp:
+                        fail = ('refactor-splice-subtree', 'base %s %r, targets %r: got %s expected %s'
+                                % (bn.type, (a0, b0), [(n.type, a, b, rep) for n, a, b, rep in chosen], short(got, 120), short(exp, 120)))
         except RecursionError:
             return Outcome(excluded='recursion-limit')
         except Exception as e:
@@ -168,7 +188,7 @@ class C19(Prop):
             classes.append('multi-target')
         classes.append('state:' + state)
         nt = bool(set(classes) & {'param', 'error', 'fstring', 'keyword-stmt', 'multi-target'})
-        return Outcome(fail=fail, nontrivial=nt, classes=classes, key=digest(code, v, case['indent'], case['protocol'], case['targets'], state))
+        return Outcome(fail=fail, nontrivial=nt, classes=classes, key=digest(code, v, case['indent'], case['protocol'], case['targets'], state, case.get('base')))
 
     def sample_repr(self, case):
         d = dict(case)
